@@ -144,7 +144,7 @@ func c03Wire(verb string, seq int, long bool, nick string) string {
 	}
 	pad := ""
 	if long {
-		pad = " " + strings.Repeat("p", 5000)
+		pad = " " + strings.Repeat("p", 5000+(seq%4)*5000) // 5000 .. 20000 bytes: beyond one and two read buffers
 	}
 	return fmt.Sprintf(":src!u@h %s tgt :%d%s", verb, seq, pad)
 }
